@@ -51,6 +51,7 @@ const maxBlob = constants.MaxBlobSize
 const encryptHeadroom = 8 << 10
 
 func TestMain(m *testing.M) {
+	evid.QuietStderr()
 	evid.Main(m, prop, "exploration",
 		"one evaluation = one OFFER (ref text, bytes, source reader, ingest path, backend). A rapid case builds one backend "+
 			"(memory|localdisk|diskpacked[maxFileSize]|blobpacked|encrypt|replica|namespace|verif, children drawn, through blobserver.CreateStorage), "+
